@@ -977,4 +977,40 @@ theorem reachable_run {eqv : ObjEq} {s : Sys} (h : Reachable eqv s) : ∀ sched,
   | [] => h
   | t :: ts => reachable_run (Reachable.step t h) ts
 
+
+theorem Cell.full_inj {o o' : Obj} (h : Cell.full o = Cell.full o') : o = o' := by
+  cases o; cases o'
+  simp only [Cell.full, Cell.mk.injEq, Option.some.injEq] at h
+  obtain ⟨rfl, rfl⟩ := h; rfl
+
+theorem Spec.atSlot_some {T : List Obj} {i : Int} {o : Obj} (h : Spec.atSlot T i = some o) :
+    0 ≤ i ∧ T[i.toNat]? = some o ∧ o.key ≠ "" := by
+  unfold Spec.atSlot at h
+  split at h
+  · rename_i h0
+    split at h
+    · rename_i o' ho'
+      split at h
+      · cases h
+      · rename_i hne
+        cases h; exact ⟨h0, ho', hne⟩
+    · cases h
+  · cases h
+
+theorem Spec.lookup_some {T : List Obj} {k : String} {j : Nat} {o : Obj} (h : Spec.lookup T k = some (j, o)) :
+    k ≠ "" ∧ T[j]? = some o ∧ keyEq o.key k = true ∧ o.key ≠ "" := by
+  unfold Spec.lookup at h
+  split at h
+  · cases h
+  · rename_i hk
+    obtain ⟨_, h2, h3, h4, _⟩ := Spec.scanKey_some h
+    exact ⟨hk, by simpa using h2, h3, h4⟩
+
+theorem getElem?_take_some {α} {l : List α} {n i : Nat} {a : α} (h : (l.take n)[i]? = some a) :
+    i < n ∧ l[i]? = some a := by
+  rw [List.getElem?_take] at h
+  split at h
+  · exact ⟨by assumption, h⟩
+  · cases h
+
 end MjProof.GlobalTable
